@@ -855,6 +855,24 @@ func c09SizeSweep(r *core.Run) {
 			})
 			_ = ti
 			atomic.AddInt64(&n, 1)
+			// the same block sizes as ONE packed run (legal protobuf for a
+			// repeated varint field, whatever the number of entries)
+			if len(m.BlockSizes) > 0 {
+				m2 := m
+				m2.BlockSizes = nil
+				var run []byte
+				for _, v := range m.BlockSizes {
+					run = protowire.AppendVarint(run, v)
+				}
+				p2 := protowire.AppendBytes(protowire.AppendTag(m2.canonical(), 4, protowire.BytesType), run)
+				c09CheckWire(p2, false, func(sig, detail string) {
+					if len(detail) > 400 {
+						detail = detail[:400] + "…"
+					}
+					r.Violate(sig+" size-sweep packed "+tl.name, fmt.Sprintf("%d block sizes in one packed run (%d wire bytes), tail %s: %s", len(m.BlockSizes), len(p2), tl.name, detail), map[string]any{"wire": fmt.Sprintf("%x", p2), "kind": "data"})
+				})
+				atomic.AddInt64(&n, 1)
+			}
 		}
 	})
 	r.Evaluations.Add(n)
